@@ -3,26 +3,67 @@ package vatomic
 
 import (
 	"sync/atomic"
+	"unsafe"
 
 	"github.com/go-openapi/validate/verifrt"
 )
 
 type (
-	Value  = verifrt.Value
-	Bool   = atomic.Bool
-	Int32  = atomic.Int32
-	Int64  = atomic.Int64
-	Uint32 = atomic.Uint32
-	Uint64 = atomic.Uint64
+	Value   = verifrt.Value
+	Bool    = verifrt.Bool
+	Int32   = verifrt.Int32
+	Int64   = verifrt.Int64
+	Uint32  = verifrt.Uint32
+	Uint64  = verifrt.Uint64
+	Uintptr = atomic.Uintptr
 )
 
-func AddInt32(addr *int32, delta int32) int32    { return atomic.AddInt32(addr, delta) }
-func AddInt64(addr *int64, delta int64) int64    { return atomic.AddInt64(addr, delta) }
-func LoadInt32(addr *int32) int32                { return atomic.LoadInt32(addr) }
-func LoadInt64(addr *int64) int64                { return atomic.LoadInt64(addr) }
-func StoreInt32(addr *int32, v int32)            { atomic.StoreInt32(addr, v) }
-func StoreInt64(addr *int64, v int64)            { atomic.StoreInt64(addr, v) }
-func LoadUint32(addr *uint32) uint32             { return atomic.LoadUint32(addr) }
-func StoreUint32(addr *uint32, v uint32)         { atomic.StoreUint32(addr, v) }
-func CompareAndSwapInt32(a *int32, o, n int32) bool { return atomic.CompareAndSwapInt32(a, o, n) }
-func CompareAndSwapInt64(a *int64, o, n int64) bool { return atomic.CompareAndSwapInt64(a, o, n) }
+// Pointer stands in for atomic.Pointer[T] (a generic alias is not available at this language level).
+type Pointer[T any] struct{ verifrt.Pointer[T] }
+
+func pt(load bool, p unsafe.Pointer) { verifrt.AtomicPoint(load, p) }
+
+func AddInt32(a *int32, d int32) int32 { pt(false, unsafe.Pointer(a)); return atomic.AddInt32(a, d) }
+func AddInt64(a *int64, d int64) int64 { pt(false, unsafe.Pointer(a)); return atomic.AddInt64(a, d) }
+func AddUint32(a *uint32, d uint32) uint32 {
+	pt(false, unsafe.Pointer(a))
+	return atomic.AddUint32(a, d)
+}
+func AddUint64(a *uint64, d uint64) uint64 {
+	pt(false, unsafe.Pointer(a))
+	return atomic.AddUint64(a, d)
+}
+func LoadInt32(a *int32) int32          { pt(true, unsafe.Pointer(a)); return atomic.LoadInt32(a) }
+func LoadInt64(a *int64) int64          { pt(true, unsafe.Pointer(a)); return atomic.LoadInt64(a) }
+func LoadUint32(a *uint32) uint32       { pt(true, unsafe.Pointer(a)); return atomic.LoadUint32(a) }
+func LoadUint64(a *uint64) uint64       { pt(true, unsafe.Pointer(a)); return atomic.LoadUint64(a) }
+func StoreInt32(a *int32, v int32)      { pt(false, unsafe.Pointer(a)); atomic.StoreInt32(a, v) }
+func StoreInt64(a *int64, v int64)      { pt(false, unsafe.Pointer(a)); atomic.StoreInt64(a, v) }
+func StoreUint32(a *uint32, v uint32)   { pt(false, unsafe.Pointer(a)); atomic.StoreUint32(a, v) }
+func StoreUint64(a *uint64, v uint64)   { pt(false, unsafe.Pointer(a)); atomic.StoreUint64(a, v) }
+func SwapInt32(a *int32, v int32) int32 { pt(false, unsafe.Pointer(a)); return atomic.SwapInt32(a, v) }
+func SwapInt64(a *int64, v int64) int64 { pt(false, unsafe.Pointer(a)); return atomic.SwapInt64(a, v) }
+func CompareAndSwapInt32(a *int32, o, n int32) bool {
+	pt(false, unsafe.Pointer(a))
+	return atomic.CompareAndSwapInt32(a, o, n)
+}
+func CompareAndSwapInt64(a *int64, o, n int64) bool {
+	pt(false, unsafe.Pointer(a))
+	return atomic.CompareAndSwapInt64(a, o, n)
+}
+func CompareAndSwapUint32(a *uint32, o, n uint32) bool {
+	pt(false, unsafe.Pointer(a))
+	return atomic.CompareAndSwapUint32(a, o, n)
+}
+func CompareAndSwapUint64(a *uint64, o, n uint64) bool {
+	pt(false, unsafe.Pointer(a))
+	return atomic.CompareAndSwapUint64(a, o, n)
+}
+func LoadPointer(a *unsafe.Pointer) unsafe.Pointer {
+	pt(true, unsafe.Pointer(a))
+	return atomic.LoadPointer(a)
+}
+func StorePointer(a *unsafe.Pointer, v unsafe.Pointer) {
+	pt(false, unsafe.Pointer(a))
+	atomic.StorePointer(a, v)
+}
